@@ -187,7 +187,7 @@ CLAIMS = {
         "built independently in the final configuration.",
         note="Trusted: TLC; the adapters' mapping of abstract actions to API calls; the fresh-build oracle (new mesh object from the harness's own shadow coordinates). "
         "Random-walk sampling of behaviours (seeded), not a transition cover; PhaseField/HyperElastic/InElastic/Beam/WeakForms adapters are listed in DESIGN.md as growth items.",
-        technique="TLA+ life-cycle specification, TLC exhaustive + negative variants; TLC behaviours replayed into real simulations with per-step abstraction comparison",
+        technique="TLA+ life-cycle specification, TLC exhaustive + negative variants; TLC behaviours replayed into real simulations with per-step abstraction comparison (direction A) + events recorded while the repository's own tests run validated by Trace_Lifecycle.tla (direction B)",
         design_ref="DESIGN.md 6/C14",
     ),
     "C15": dict(
@@ -198,7 +198,7 @@ CLAIMS = {
         "leave the state fingerprint unchanged.",
         note="Trusted: TLC, the harness's snapshots. Velocities/accelerations are required from a stored iteration only when saved and restored under a dynamic scheme. "
         "After a restore that switches mesh the environment re-enters boundary conditions (modelled explicitly in SetIter).",
-        technique="TLA+ iteration-store specification (action properties), TLC exhaustive; TLC behaviours replayed into real simulations against shadow snapshots",
+        technique="TLA+ iteration-store specification (action properties), TLC exhaustive; TLC behaviours replayed into real simulations against shadow snapshots + Save_Iter / Set_Iter events of the repository's tests validated by Trace_Lifecycle.tla",
         design_ref="DESIGN.md 6/C15",
     ),
     "C05": dict(
